@@ -13,7 +13,8 @@ LU = {
     "AB1": [{"cls": "A", "bs": 1}, {"cls": "B", "bs": 1}],
     "ABC": [{"cls": "A", "bs": 1}, {"cls": "B", "bs": 1}, {"cls": "C", "bs": 2}],
 }
-ALT_C_BC = [[{"cls": "C", "bs": 1}], [{"cls": "B", "bs": 1}, {"cls": "C", "bs": 1}]]
+ALT_C_BC = [[{"cls": "C", "bs": 1}], [{"cls": "B", "bs": 1}, {"cls": "C", "bs": 1}],
+            [{"cls": "C", "bs": 1}, {"cls": "A", "bs": 1}]]      # (a new class listed before an old one)
 ALL_FAULTS = ["sampler", "model", "loss"]
 
 BASE = dict(lineup=LU["AB"], alts=[], kind="rr", E=2, callsizes=[1, 2], maxbatches=3, maxcalls=3, lossvals=[6],
